@@ -29,6 +29,7 @@ type Behavior struct {
 	Child        string `json:"child"`         // "hold": spawn a descendant that inherits stdout/stderr and sleeps; "hold2": via an intermediate process
 	ChildSleepMS int    `json:"child_sleep_ms"`
 	ExitFirst    bool   `json:"exit_first"` // with Child: exit immediately after spawning (else sleep SleepMS first)
+	StderrFirst  bool   `json:"stderr_first"` // print stderr BEFORE sleeping (a plugin that reports its error and then hangs)
 }
 
 var pluginCommands = map[string]bool{"get-plugin-metadata": true, "describe-key": true, "generate-signature": true, "generate-envelope": true, "verify-signature": true}
@@ -97,6 +98,10 @@ func pluginMode(cmd string) {
 		c := exec.Command(exe, arg, strconv.Itoa(b.ChildSleepMS))
 		c.Stdout, c.Stderr = os.Stdout, os.Stderr // the descendant inherits the pipes
 		c.Start()
+	}
+	if b.StderrFirst {
+		os.Stderr.WriteString(b.Stderr)
+		b.Stderr = ""
 	}
 	if b.SleepMS > 0 && !b.ExitFirst {
 		time.Sleep(time.Duration(b.SleepMS) * time.Millisecond)
